@@ -15,7 +15,7 @@ CHECKS = {
     'C02': {
         'text': 'Seeded search over corrupted uplink byte streams (bit flips, dropped/inserted bytes, truncation, stray and duplicate delimiters, noise) and every '
                 'chunking across read polls, plus loop-back of the library\'s own downlink; the bytes actually delivered are decoded by the independent reference '
-                'codec into GOOD / BAD-CRC / UNSPECIFIED frames and the messages read through bidib_read_message must equal the GOOD frames\' messages in order, exactly once. Loop-back pings carry engineered data so that CRC bytes need escaping; runs of 2-3 sessions end streams inside a packet and judge every session on its own stream; normal-mode runs deliver error-class messages and bit-flipped copies while an application task drains the error queue under the GLib-container lockset monitor; unread bursts of 129-190 packets (the newest 128 must come out in stream order).',
+                'codec into GOOD / BAD-CRC / UNSPECIFIED frames and the messages read through bidib_read_message must equal the GOOD frames\' messages in order, exactly once. Loop-back pings carry engineered data so that CRC bytes need escaping; runs of 2-3 sessions end streams inside a packet and judge every session on its own stream; normal-mode runs deliver error-class messages and bit-flipped copies while an application task drains the error queue under the GLib-container lockset monitor; unread bursts of 129-190 packets (the newest 128 must come out in stream order); the line falls silent inside a packet for 0.1-0.4 s now and then.',
         'ref': 'DESIGN.md section 3 C02', 'note': NOTE_COMMON,
         'technique': 'deterministic simulation: transport-fault injection on the read callback + reference decoder oracle',
     },
@@ -23,7 +23,7 @@ CHECKS = {
         'text': 'Seeded search over request sequences, lost / duplicated / alternative / delayed answers, clock advances across the 2 s expiry and sender-vs-receiver '
                 'interleavings; a per-node reference model of outstanding response budget is driven by the same events: lenient-low for the <=48 safety check at every '
                 'wire emission, lenient-high (FIFO head matching + expiry) for never-stranded after each processed uplink message; FIFO vs real-time order of calls; '
-                'exactly-once after a heal phase. The low model credits an answer to any request invoked before the answer is known processed; the high model keeps a fresh request when the answer may have been spent on an expired one.',
+                'exactly-once after a heal phase. The low model credits an answer to any request invoked before the answer is known processed; the high model keeps a fresh request when the answer may have been spent on an expired one; a stranded-trigger is only noted when the library\'s own reported budget figure leaves room as well; focused stall floods (130-170 held messages).',
         'ref': 'DESIGN.md section 3 C03', 'note': NOTE_COMMON,
         'technique': 'deterministic simulation: fault injection on answers + simulated clock + flow-control reference model',
     },
@@ -36,14 +36,14 @@ CHECKS = {
     },
     'C05': {
         'text': 'Seeded schedules (PCT with 1-4 priority change points, random walk, sticky, starvation, function-entry preemption) of 2-16 sender tasks; the decoded wire '
-                'must carry consecutive per-node sequence numbers across the 255->1 wrap; normal-mode variant (probing with numbering off, SYS_RESET restarts numbering) and lost / duplicated / renumbered answers in between.',
+                'must carry consecutive per-node sequence numbers across the 255->1 wrap; normal-mode runs in which a node stops answering one request kind (numbered messages are held back), then another node is lost and / or the application resets the system; normal-mode variant (probing with numbering off, SYS_RESET restarts numbering) and lost / duplicated / renumbered answers in between.',
         'ref': 'DESIGN.md section 3 C05', 'note': NOTE_COMMON,
         'technique': 'deterministic simulation: seeded scheduler (PCT / random walk) + wire oracle',
     },
     'C06': {
         'text': 'Seeded search over uplink traffic of all 256 type codes (error / non-error variants) in both modes, queue fill levels around 128 and 0-4 reader tasks racing the '
                 'receiver. A reference dispatch table written from the README gives the expected pushes per queue; the simulator observes the order of critical sections on each '
-                'queue mutex, which is the linearisation order in which a sequential bounded-FIFO model is replayed: every pop must return exactly the model\'s element. Bare MSG_SYS_ERROR without parameters, Secure-ACK boards and position reports are part of the traffic; the GLib-container lockset monitor is armed; after bidib_stop the library heap must be back at the level of a traffic-free warm-up session (messages still queued are released).',
+                'queue mutex, which is the linearisation order in which a sequential bounded-FIFO model is replayed: every pop must return exactly the model\'s element. Bare MSG_SYS_ERROR without parameters, Secure-ACK boards and position reports are part of the traffic; the GLib-container lockset monitor is armed; after bidib_stop the library heap must be back at the level of a traffic-free warm-up session (messages still queued are released); a report that arrives during the start-up dialogue must be waiting in its queue when the start returns.',
         'ref': 'DESIGN.md section 3 C06', 'note': NOTE_COMMON,
         'technique': 'deterministic simulation: linearisation order from the lock model + sequential bounded-FIFO reference',
     },
@@ -57,7 +57,7 @@ CHECKS = {
     'C08': {
         'text': 'Seeded occupancy / address report histories over several boards and trains with 1-3 concurrent reader tasks; after every message the presence getters must '
                 'equal the reference model (on_track <=> listed, position = exactly the listing segments, orientation one of the reported), and a bidib_get_state snapshot of '
-                'a concurrent reader must be internally consistent whenever the simulator saw no segment-mutating critical section during the call; presence-version oracle: the result of a concurrent position / on-track reader must equal the model\'s presence as of some uplink frame whose delivery-to-processed interval overlaps the call. Address storms (one report per 5 ms grid instant, readers working in batches at every instant) and resets are part of the histories; concurrent bidib_get_segment_state results are judged by the same version oracle.',
+                'a concurrent reader must be internally consistent whenever the simulator saw no segment-mutating critical section during the call; presence-version oracle: the result of a concurrent position / on-track reader must equal the model\'s presence as of some uplink frame whose delivery-to-processed interval overlaps the call. Address storms (one report per 5 ms grid instant, readers working in batches at every instant) and resets are part of the histories; concurrent bidib_get_segment_state results are judged by the same version oracle; snapshots that overlap updates are judged for order (train presence never older than the segment lists); manual drive reports incl. release-loco are part of the traffic.',
         'ref': 'DESIGN.md section 3 C08', 'note': NOTE_COMMON,
         'technique': 'deterministic simulation: reference model + lock-section trace to judge concurrent snapshots',
     },
@@ -68,7 +68,7 @@ CHECKS = {
                 'function-bit history) gives the exact expected downlink messages per accepted call; a rejected call must add nothing to the wire and leave bidib_get_state '
                 'unchanged; optimistic state is compared with the reference after each call. Aspect ids are generated as prefix chains in one configuration of three and unknown '
                 'ids as near misses of configured ones. Phases of 2-4 tasks issue train commands concurrently: the downlink must then be explained by ONE serial order of the '
-                'commands against the same reference (search over assignments respecting program order), and the final state must equal the model; when the command station reports manual drive commands for the same train meanwhile, one total order of commands and reports that respects real-time precedence must explain both the downlink and the final state (lost updates between a command and the receiver). A lost MSG_NODE_LOST followed by an immediate re-login elsewhere and interfaces leaving with the boards beneath them are part of the topology histories.',
+                'commands against the same reference (search over assignments respecting program order), and the final state must equal the model; when the command station reports manual drive commands for the same train meanwhile, one total order of commands and reports that respects real-time precedence must explain both the downlink and the final state (lost updates between a command and the receiver). A lost MSG_NODE_LOST followed by an immediate re-login elsewhere and interfaces leaving with the boards beneath them (also with a repeated notice) are part of the topology histories.',
         'ref': 'DESIGN.md section 3 C09', 'note': NOTE_COMMON + '; the values are generated per run, the history dependence (function bits, direction at speed 0, address changes after re-login) is what the simulation adds',
         'technique': 'deterministic simulation: command histories against SimBus with topology events + config->message reference model on the wire',
     },
@@ -83,7 +83,7 @@ CHECKS = {
     'C20': {
         'text': 'Seeded configurations (features and initial values on any subset of boards, accessories and trains) x node trees with any subset of the configured boards present, '
                 'boards answering feature requests with the requested or another value, delayed and chunked answers, a slow node whose feature confirmations are 2-4.5 s late while more '
-                'FEATURE_SETs than one response budget are pending, single confirmations that are late and overtaken by the ones behind them, a late GO confirmation, a board lost during the feature phase or after its node-table row was read, an interface with configured boards logging in during the enumeration, spontaneous occupancy traffic during the dialogue, and a system '
+                'FEATURE_SETs than one response budget are pending, single confirmations that are late and overtaken by the ones behind them, a late GO confirmation, a board (or an interface with everything beneath it) lost during the feature phase or after its node-table row was read, an interface with configured boards logging in during the enumeration, spontaneous occupancy traffic during the dialogue, and a system '
                 'reset later in the session (answers are never lost here: the start-up dialogue has no timeout and would rightly wait). The complete decoded downlink transcript of every start-up / reset dialogue is checked against a transcript model: features only to their '
                 'connected board and before SYS_ENABLE, every connected track output switched on, then every initial aspect exactly once and every initial train function once per '
                 'connected track output with the encoding of the high-level command, nothing for absent boards.',
@@ -113,7 +113,7 @@ CHECKS = {
     'C12': {
         'text': 'Hostile uplink streams (random, mutated, grammar-generated CRC-valid packets with adversarial length/address/type/field values, oversized frames) in debug and '
                 'normal mode against generated configurations, incl. single messages close to the 255-byte maximum, under ASan/UBSan with deterministic fill patterns; application tasks (getters, commands, queue readers) running during the stream; then a liveness '
-                'probe: a known-good packet must still be processed; the GLib-container lockset monitor is armed; a capacity dance (large announcement, unflushed batch, smaller announcement). A receiver that spins without reaching a scheduling point is reported by a CPU-time monitor outside the simulation.',
+                'probe: a known-good packet must still be processed; the GLib-container lockset monitor is armed; a capacity dance (large announcement, unflushed batch, smaller announcement); Secure-ACK boards with position reports; unread bursts beyond the queue bound. A receiver that spins without reaching a scheduling point is reported by a CPU-time monitor outside the simulation.',
         'ref': 'DESIGN.md section 3 C12', 'note': NOTE_COMMON,
         'technique': 'deterministic simulation: line-noise / adversarial-frame injection + sanitizers + bounded-liveness probe',
     },
@@ -121,7 +121,7 @@ CHECKS = {
         'text': 'Seeded structure-aware mutations of generated valid configuration triples, raw noise, and file faults (missing file, truncation at byte k, EIO after k bytes) on the '
                 'in-memory file layer; the start runs the real threads against the simulated interface on simulated time and the whole stop path on error. Oracles: returns 0/1 '
                 '(deadlock, self-deadlock and unbounded wait are decided by the scheduler, not by a timeout), sanitizers, locks released, threads joined, configuration FILE closed, '
-                'library-attributed live heap back to the warm-up level, and a following start with the valid configuration works; boards log in and report while a start is going on, single feature confirmations arrive late and overtaken, traffic falls into the node-table read-out, one mutated start in six goes through bidib_start_serial; a parser loop that never reaches a scheduling point '
+                'library-attributed live heap back to the warm-up level, and a following start with the valid configuration works; boards log in and report while a start is going on, single feature confirmations arrive late and overtaken, traffic falls into the node-table read-out, one mutated start in six goes through bidib_start_serial, boards with 9-24 features, a leaf re-login during the read-out signalled with the size of the new table; a parser loop that never reaches a scheduling point '
                 'is reported by a CPU-time monitor outside the simulation (12 s of CPU time without a scheduling step). The input-generation part is ordinary generation; '
                 'the simulation contributes threads, time, the file faults and the lock/heap/thread bookkeeping.',
         'ref': 'DESIGN.md section 3 C13', 'note': NOTE_COMMON,
@@ -149,7 +149,7 @@ CHECKS = {
         'text': 'Seeded worlds with Secure-ACK enabled / disabled / absent per board, occupancy reports of all four kinds from several boards interleaved with sender tasks, '
                 'optionally while the reporting board is stalled, with MULTIPLE windows up to the last detector and a task that consumes (and frees) the message queue meanwhile; '
                 'every report of a SecAck board must produce exactly one mirror with the same payload, in order, already on '
-                'the wire when the report is known processed (no flush by the application, auto-flush off) unless a stall or an exhausted response budget (answers dropped by the bus) impedes it - then exactly once after the impediment ends; other boards never receive mirrors, also after two boards with different Secure-ACK settings swapped addresses.',
+                'the wire when the report is known processed (no flush by the application, auto-flush off) unless a stall or an exhausted response budget (answers dropped by the bus) impedes it - then exactly once after the impediment ends; other boards never receive mirrors, also after two boards with different Secure-ACK settings swapped addresses, after a duplicated feature confirmation during start-up, and for answers to the application\'s own range queries (non-zero action id).',
         'ref': 'DESIGN.md section 3 C19', 'note': NOTE_COMMON,
         'technique': 'deterministic simulation: SimBus report events + wire oracle at the moment of known processing',
     },
